@@ -1,12 +1,974 @@
 package main
 
-// Structural obligation kinds (effects, lock discipline, dominance, determinism): filled in per property.
+// Structural obligation kinds (DESIGN.md 2.6): function-modular checks over the SSA that need no
+// solver: effects (C10), lock discipline (C11), poll dominance (C09), determinism (C19),
+// recursion (C08).  Each yields named obligations like the SMT ones.
+
+import (
+	"fmt"
+	"go/token"
+	"go/types"
+	"sort"
+	"strings"
+
+	"golang.org/x/tools/go/ssa"
+)
+
+type sob struct {
+	Name   string
+	OK     bool
+	Src    string
+	Detail string
+	Pos    token.Position
+}
+
+func (p *Program) libraryFuncs() []*ssa.Function {
+	var out []*ssa.Function
+	for _, k := range p.sortedFuncKeys() {
+		f := p.funcs[k]
+		if p.isTestFunc(f) || strings.HasPrefix(k, "cmd/") || strings.HasPrefix(k, "_examples") || strings.HasPrefix(k, "misc") {
+			continue
+		}
+		out = append(out, f)
+	}
+	return out
+}
+
+func (p *Program) posOf(in ssa.Instruction) token.Position {
+	if in.Pos().IsValid() {
+		return p.prog.Fset.Position(in.Pos())
+	}
+	return token.Position{}
+}
+
+// ---------------------------------------------------------------------------------------------
+// C10: effects.  allowed = {stdout, env, clock, tzdb}; every external callee is classified by the
+// table below; anything not in the table is forbidden.
+
+var effectTable = map[string]string{
+	"fmt.Print": "stdout", "fmt.Printf": "stdout", "fmt.Println": "stdout",
+	"os.Getenv": "env", "time.Now": "clock", "time.LoadLocation": "tzdb",
+	"fmt.Sprintf": "pure", "fmt.Sprint": "pure", "fmt.Errorf": "pure", "errors.New": "pure",
+	"time.Unix": "pure", "context.Background": "pure", "hash/fnv.New64a": "pure",
+	"sort.Sort": "pure", "sort.Slice": "pure", "sort.Strings": "pure", "sort.Ints": "pure", "sort.SliceStable": "pure", "sort.Stable": "pure",
+	"regexp.Compile": "pure", "regexp.MustCompile": "pure", "regexp.QuoteMeta": "pure", "regexp.MatchString": "pure",
+	"reflect.ValueOf": "pure", "reflect.Indirect": "pure", "reflect.TypeOf": "pure", "reflect.DeepEqual": "pure",
+	"(*sync.Mutex).Lock": "pure", "(*sync.Mutex).Unlock": "pure", "(*sync.RWMutex).Lock": "pure", "(*sync.RWMutex).Unlock": "pure",
+	"(*sync.RWMutex).RLock": "pure", "(*sync.RWMutex).RUnlock": "pure",
+	"(encoding/binary.bigEndian).Uint16": "pure", "(encoding/binary.bigEndian).PutUint16": "pure",
+}
+
+// packages all of whose package-level functions are free of effects on the outside world
+var effectPurePkgs = map[string]bool{"strings": true, "strconv": true, "unicode": true, "unicode/utf8": true, "math": true,
+	"bytes": true, "errors": true, "unicode/utf16": true, "math/bits": true}
+
+// receiver types whose methods only observe / build values in memory
+var effectPureRecv = []string{"time.Time", "time.Location", "time.Month", "time.Weekday", "time.Duration", "regexp.Regexp",
+	"strings.Builder", "bytes.Buffer", "strings.Reader", "strings.Replacer"}
+
+// reflect: data accessors are pure; invocation (Call, Method...) is forbidden
+var reflectForbidden = map[string]bool{"Call": true, "CallSlice": true, "Method": true, "MethodByName": true, "Send": true, "Recv": true,
+	"TrySend": true, "TryRecv": true, "UnsafeAddr": true, "UnsafePointer": true, "Pointer": true}
+
+// methods of interfaces implemented outside the module
+var effectPureIfaceMethods = map[string]bool{"error.Error": true, "context.Context.Done": true, "context.Context.Err": true,
+	"context.Context.Deadline": true, "context.Context.Value": true, "hash.Hash64.Sum64": true, "hash.Hash64.Write": true,
+	"hash.Hash64.Reset": true, "fmt.Stringer.String": true, "sort.Interface.Len": true, "sort.Interface.Less": true, "sort.Interface.Swap": true}
+
+var allowedImports = map[string]bool{"bytes": true, "context": true, "encoding/binary": true, "errors": true, "fmt": true, "hash/fnv": true,
+	"math": true, "os": true, "reflect": true, "regexp": true, "sort": true, "strconv": true, "strings": true, "sync": true, "time": true,
+	"unicode": true, "unicode/utf8": true}
+
+func classifyExternal(f *ssa.Function) string {
+	name := f.String()
+	if e, ok := effectTable[name]; ok {
+		return e
+	}
+	if f.Pkg != nil && effectPurePkgs[f.Pkg.Pkg.Path()] && f.Signature.Recv() == nil {
+		return "pure"
+	}
+	if recv := f.Signature.Recv(); recv != nil {
+		rt := types.TypeString(recv.Type(), nil)
+		rt = strings.TrimPrefix(rt, "*")
+		for _, ok := range effectPureRecv {
+			if rt == ok {
+				return "pure"
+			}
+		}
+		if rt == "reflect.Value" || rt == "reflect.rtype" {
+			if reflectForbidden[f.Name()] {
+				return "forbidden"
+			}
+			return "pure"
+		}
+	}
+	return "forbidden"
+}
+
+func (p *Program) effectObligations() []sob {
+	var out []sob
+	allowed := map[string]bool{"pure": true, "stdout": true, "env": true, "clock": true, "tzdb": true}
+	// imports of the library packages
+	for _, sp := range p.spkgs {
+		if sp == nil || !isModulePkg(sp.Pkg) || strings.Contains(sp.Pkg.Path(), "/cmd/") || strings.Contains(sp.Pkg.Path(), "_examples") || strings.Contains(sp.Pkg.Path(), "/misc") {
+			continue
+		}
+		for _, imp := range sp.Pkg.Imports() {
+			if isModulePkg(imp) {
+				continue
+			}
+			ok := allowedImports[imp.Path()]
+			out = append(out, sob{Name: "effects.import." + shortPkg(sp.Pkg.Path()) + "." + imp.Path(), OK: ok,
+				Src: "package " + shortPkg(sp.Pkg.Path()) + " imports " + imp.Path(), Detail: "imports outside the allowed set (file, network, process, unsafe, syscall ... packages) are forbidden"})
+		}
+	}
+	for _, f := range p.libraryFuncs() {
+		key := p.keyOf[f]
+		cnt := map[string]int{}
+		for _, b := range f.Blocks {
+			for _, in := range b.Instrs {
+				// external functions used as values (callbacks)
+				var ops []*ssa.Value
+				for _, op := range in.Operands(ops) {
+					if op == nil || *op == nil {
+						continue
+					}
+					if fv, ok := (*op).(*ssa.Function); ok && (fv.Pkg == nil || !isModulePkg(fv.Pkg.Pkg)) {
+						if ci, isCall := in.(ssa.CallInstruction); isCall && ci.Common().Value == *op && !ci.Common().IsInvoke() {
+							continue // the callee position is handled below
+						}
+						if fv.Synthetic != "" && fv.Pkg == nil {
+							continue // wrappers, bound methods of module types
+						}
+						eff := classifyExternal(fv)
+						cnt["value."+fv.String()]++
+						out = append(out, sob{Name: fmt.Sprintf("%s#effects.value.%s.%d", key, fv.String(), cnt["value."+fv.String()]), OK: allowed[eff],
+							Src: "external function " + fv.String() + " used as a value", Detail: "effect class " + eff, Pos: p.posOf(in)})
+					}
+				}
+				ci, ok := in.(ssa.CallInstruction)
+				if !ok {
+					continue
+				}
+				c := ci.Common()
+				switch {
+				case c.IsInvoke():
+					it := c.Value.Type().Underlying().(*types.Interface)
+					if len(p.implementers(it, c.Method.Name())) > 0 {
+						continue // module implementers are checked themselves
+					}
+					n := types.TypeString(c.Value.Type(), nil) + "." + c.Method.Name()
+					if types.TypeString(c.Value.Type(), nil) == "reflect.Type" {
+						n = "reflect.Type." + c.Method.Name()
+					}
+					ok := effectPureIfaceMethods[n] || (strings.HasPrefix(n, "reflect.Type.") && !reflectForbidden[c.Method.Name()])
+					cnt[n]++
+					out = append(out, sob{Name: fmt.Sprintf("%s#effects.call.%s.%d", key, n, cnt[n]), OK: ok, Src: "call of external interface method " + n,
+						Detail: "only listed observer methods of external interfaces are allowed", Pos: p.posOf(in)})
+				default:
+					fn, isFn := c.Value.(*ssa.Function)
+					if !isFn {
+						continue // function values: module closures (checked themselves) or host functions (the stated exception)
+					}
+					if fn.Pkg != nil && isModulePkg(fn.Pkg.Pkg) {
+						continue
+					}
+					eff := classifyExternal(fn)
+					cnt[fn.String()]++
+					out = append(out, sob{Name: fmt.Sprintf("%s#effects.call.%s.%d", key, fn.String(), cnt[fn.String()]), OK: allowed[eff],
+						Src: "call of " + fn.String(), Detail: "effect class " + eff + " (allowed: pure, stdout, env, clock, tzdb)", Pos: p.posOf(in)})
+				}
+			}
+		}
+	}
+	// the built-ins registered by environment.New are module functions
+	if f := p.funcs["environment.New"]; f != nil {
+		n := 0
+		for _, b := range f.Blocks {
+			for _, in := range b.Instrs {
+				ci, ok := in.(ssa.CallInstruction)
+				if !ok {
+					continue
+				}
+				callee, _ := ci.Common().Value.(*ssa.Function)
+				if callee == nil || callee.Name() != "SetFunction" {
+					continue
+				}
+				arg := ci.Common().Args[2]
+				if mi, ok := arg.(*ssa.MakeInterface); ok {
+					arg = mi.X
+				}
+				fv, isFn := arg.(*ssa.Function)
+				n++
+				ok2 := isFn && fv.Pkg != nil && isModulePkg(fv.Pkg.Pkg)
+				out = append(out, sob{Name: fmt.Sprintf("environment.New#effects.builtin.%d", n), OK: ok2, Src: "a registered built-in is a function of the module (its own effects are checked)", Pos: p.posOf(in)})
+			}
+		}
+	}
+	return out
+}
+
+// ---------------------------------------------------------------------------------------------
+// C11: lock discipline.
+
+func (p *Program) lockObligations() []sob {
+	var out []sob
+	// (1) no goroutines are started by the library
+	for _, f := range p.libraryFuncs() {
+		for _, b := range f.Blocks {
+			for _, in := range b.Instrs {
+				if _, ok := in.(*ssa.Go); ok {
+					out = append(out, sob{Name: p.keyOf[f] + "#locks.nogo", OK: false, Src: "go statement in library code", Pos: p.posOf(in)})
+				}
+			}
+		}
+	}
+	// (2) package-level variables: immutable after init, or every access under the variable's lock
+	guards := map[string]string{} // global -> mutex global (from contracts: "guarded_by" props on pkg-level pseudo contracts)
+	for _, c := range p.contracts.byKey {
+		for k, v := range c.Props {
+			if k == "guarded_global" {
+				f := strings.Fields(v)
+				if len(f) == 2 {
+					guards[c.Pkg+"."+f[0]] = c.Pkg + "." + f[1]
+				}
+			}
+		}
+	}
+	for _, sp := range p.spkgs {
+		if sp == nil || !isModulePkg(sp.Pkg) || strings.Contains(sp.Pkg.Path(), "/cmd/") || strings.Contains(sp.Pkg.Path(), "_examples") || strings.Contains(sp.Pkg.Path(), "/misc") {
+			continue
+		}
+		var names []string
+		for n, m := range sp.Members {
+			if _, ok := m.(*ssa.Global); ok {
+				names = append(names, n)
+			}
+		}
+		sort.Strings(names)
+		for _, n := range names {
+			g := sp.Members[n].(*ssa.Global)
+			if strings.HasPrefix(n, "init$") || n == "_" {
+				continue
+			}
+			gname := shortPkg(sp.Pkg.Path()) + "." + n
+			if et := g.Type().(*types.Pointer).Elem(); strings.HasPrefix(types.TypeString(et, nil), "sync.") {
+				continue // the locks themselves
+			}
+			var writers, unguarded []string
+			for _, f := range p.libraryFuncs() {
+				if f.Pkg != sp && !p.refersTo(f, g) {
+					continue
+				}
+				if f.Name() == "init" || strings.HasPrefix(f.Name(), "init#") {
+					continue
+				}
+				w, acc := p.globalAccesses(f, g)
+				if w {
+					writers = append(writers, p.keyOf[f])
+				}
+				if mu, ok := guards[gname]; ok && acc {
+					if !p.accessesUnderLock(f, g, mu) {
+						unguarded = append(unguarded, p.keyOf[f])
+					}
+				}
+			}
+			sort.Strings(writers)
+			sort.Strings(unguarded)
+			if mu, ok := guards[gname]; ok {
+				out = append(out, sob{Name: "locks.global." + gname, OK: len(unguarded) == 0, Src: gname + " is guarded by " + mu,
+					Detail: "accesses outside the lock in: " + strings.Join(unguarded, ", ")})
+				continue
+			}
+			out = append(out, sob{Name: "locks.global." + gname, OK: len(writers) == 0, Src: gname + " is immutable after package initialisation (no lock needed)",
+				Detail: "written (or its map/slice contents written) outside init by: " + strings.Join(writers, ", ")})
+		}
+	}
+	// (3) Eval.Run: the call of Execute lies between Lock and Unlock of e.mutex; Prepare holds the lock to its end
+	if f := p.funcs["evalfilter.(*Eval).Run"]; f != nil {
+		ok, detail := p.callBetweenLockUnlock(f, "Execute")
+		out = append(out, sob{Name: "evalfilter.(*Eval).Run#locks.critical", OK: ok, Src: "Execute is called with e.mutex held and the lock is released on every path", Detail: detail})
+	}
+	if f := p.funcs["evalfilter.(*Eval).Prepare"]; f != nil {
+		ok, detail := p.lockHeldToEnd(f)
+		out = append(out, sob{Name: "evalfilter.(*Eval).Prepare#locks.critical", OK: ok, Src: "Prepare locks e.mutex first and unlocks it by defer", Detail: detail})
+	}
+	return out
+}
+
+func (p *Program) refersTo(f *ssa.Function, g *ssa.Global) bool {
+	for _, b := range f.Blocks {
+		for _, in := range b.Instrs {
+			var ops []*ssa.Value
+			for _, op := range in.Operands(ops) {
+				if op != nil && *op == ssa.Value(g) {
+					return true
+				}
+			}
+		}
+	}
+	return false
+}
+
+// globalAccesses: does f write the global (or the contents of the map/slice/struct it holds)? does it access it at all?
+func (p *Program) globalAccesses(f *ssa.Function, g *ssa.Global) (writes, accesses bool) {
+	derived := map[ssa.Value]bool{g: true}
+	for changed := true; changed; {
+		changed = false
+		for _, b := range f.Blocks {
+			for _, in := range b.Instrs {
+				v, ok := in.(ssa.Value)
+				if !ok || derived[v] {
+					continue
+				}
+				switch x := in.(type) {
+				case *ssa.UnOp:
+					if x.Op == token.MUL && derived[x.X] {
+						// the value held in the global: only reference-like contents are tracked further
+						switch x.Type().Underlying().(type) {
+						case *types.Map, *types.Slice, *types.Pointer:
+							derived[v] = true
+							changed = true
+						}
+					}
+				case *ssa.FieldAddr:
+					if derived[x.X] {
+						derived[v] = true
+						changed = true
+					}
+				case *ssa.IndexAddr:
+					if derived[x.X] {
+						derived[v] = true
+						changed = true
+					}
+				}
+			}
+		}
+	}
+	for _, b := range f.Blocks {
+		for _, in := range b.Instrs {
+			var ops []*ssa.Value
+			for _, op := range in.Operands(ops) {
+				if op != nil && *op != nil && derived[*op] {
+					accesses = true
+				}
+			}
+			switch x := in.(type) {
+			case *ssa.Store:
+				if derived[x.Addr] {
+					writes = true
+				}
+			case *ssa.MapUpdate:
+				if derived[x.Map] {
+					writes = true
+				}
+			case ssa.CallInstruction:
+				c := x.Common()
+				if b, ok := c.Value.(*ssa.Builtin); ok && (b.Name() == "delete" || b.Name() == "append" || b.Name() == "copy") && len(c.Args) > 0 && derived[c.Args[0]] {
+					writes = true
+				}
+			}
+		}
+	}
+	return
+}
+
+func isMutexCall(in ssa.Instruction, method string, mu string, p *Program) bool {
+	ci, ok := in.(ssa.CallInstruction)
+	if !ok {
+		return false
+	}
+	fn, ok := ci.Common().Value.(*ssa.Function)
+	if !ok || fn.Name() != method || !strings.Contains(fn.String(), "sync.") {
+		return false
+	}
+	if mu == "" {
+		return true
+	}
+	if len(ci.Common().Args) == 0 {
+		return false
+	}
+	if g, ok := ci.Common().Args[0].(*ssa.Global); ok {
+		return shortPkg(g.Pkg.Pkg.Path())+"."+g.Name() == mu
+	}
+	return false
+}
+
+// accessesUnderLock: every instruction of f that touches g is dominated by a Lock/RLock of mu with no
+// Unlock of mu in between on any path (checked block-wise: lock and access in the same block, or the
+// function locks at entry and unlocks by defer)
+func (p *Program) accessesUnderLock(f *ssa.Function, g *ssa.Global, mu string) bool {
+	derived := map[ssa.Value]bool{g: true}
+	for _, b := range f.Blocks {
+		for _, in := range b.Instrs {
+			if u, ok := in.(*ssa.UnOp); ok && u.Op == token.MUL && derived[u.X] {
+				derived[u] = true
+			}
+		}
+	}
+	// case A: Lock at entry + deferred Unlock
+	entryLocked := false
+	if len(f.Blocks) > 0 {
+		for _, in := range f.Blocks[0].Instrs {
+			if isMutexCall(in, "Lock", mu, p) || isMutexCall(in, "RLock", mu, p) {
+				entryLocked = true
+			}
+			if d, ok := in.(*ssa.Defer); ok && entryLocked {
+				if fn, ok := d.Call.Value.(*ssa.Function); ok && (fn.Name() == "Unlock" || fn.Name() == "RUnlock") {
+					return true
+				}
+			}
+		}
+	}
+	// case B: within each block, the access lies between Lock and Unlock
+	for _, b := range f.Blocks {
+		held := false
+		for _, in := range b.Instrs {
+			if isMutexCall(in, "Lock", mu, p) || isMutexCall(in, "RLock", mu, p) {
+				held = true
+			}
+			if isMutexCall(in, "Unlock", mu, p) || isMutexCall(in, "RUnlock", mu, p) {
+				held = false
+			}
+			var ops []*ssa.Value
+			for _, op := range in.Operands(ops) {
+				if op != nil && *op != nil && derived[*op] {
+					if _, isLockCall := in.(ssa.CallInstruction); isLockCall && (isMutexCall(in, "Lock", "", p) || isMutexCall(in, "Unlock", "", p) || isMutexCall(in, "RLock", "", p) || isMutexCall(in, "RUnlock", "", p)) {
+						continue
+					}
+					if !held {
+						return false
+					}
+				}
+			}
+		}
+	}
+	return true
+}
+
+func (p *Program) callBetweenLockUnlock(f *ssa.Function, callee string) (bool, string) {
+	var lockB, callB *ssa.BasicBlock
+	lockI, callI := -1, -1
+	for _, b := range f.Blocks {
+		for i, in := range b.Instrs {
+			if isMutexCall(in, "Lock", "", p) && lockB == nil {
+				lockB, lockI = b, i
+			}
+			if ci, ok := in.(ssa.CallInstruction); ok {
+				if fn, ok := ci.Common().Value.(*ssa.Function); ok && fn.Name() == callee && callB == nil {
+					callB, callI = b, i
+				}
+			}
+		}
+	}
+	if lockB == nil || callB == nil {
+		return false, "no Lock or no call of " + callee
+	}
+	if !(lockB == callB && lockI < callI) && !lockB.Dominates(callB) {
+		return false, "Lock does not dominate the call"
+	}
+	// no Unlock between (same block case) and an Unlock on every path after the call
+	for _, b := range f.Blocks {
+		for i, in := range b.Instrs {
+			if isMutexCall(in, "Unlock", "", p) {
+				if b == callB && i < callI && (b != lockB || i > lockI) {
+					return false, "Unlock before the call"
+				}
+			}
+		}
+	}
+	// every return is reached through an Unlock (or a deferred one)
+	for _, b := range f.Blocks {
+		if _, isRet := b.Instrs[len(b.Instrs)-1].(*ssa.Return); !isRet {
+			continue
+		}
+		if !p.unlockOnEveryPath(f, callB, b) {
+			return false, "a path from the call to a return does not unlock"
+		}
+	}
+	return true, ""
+}
+
+func (p *Program) unlockOnEveryPath(f *ssa.Function, from, ret *ssa.BasicBlock) bool {
+	// the unlock instruction lives in a block that dominates the return and is dominated by (or is) the call block
+	for _, b := range f.Blocks {
+		has := false
+		for _, in := range b.Instrs {
+			if isMutexCall(in, "Unlock", "", p) {
+				has = true
+			}
+			if d, ok := in.(*ssa.Defer); ok {
+				if fn, ok := d.Call.Value.(*ssa.Function); ok && fn.Name() == "Unlock" {
+					has = true
+				}
+			}
+		}
+		if has && (b == ret || b.Dominates(ret)) {
+			return true
+		}
+	}
+	return false
+}
+
+func (p *Program) lockHeldToEnd(f *ssa.Function) (bool, string) {
+	if len(f.Blocks) == 0 {
+		return false, "no body"
+	}
+	locked, deferred := false, false
+	for _, in := range f.Blocks[0].Instrs {
+		if isMutexCall(in, "Lock", "", p) {
+			locked = true
+		}
+		if d, ok := in.(*ssa.Defer); ok && locked {
+			if fn, ok := d.Call.Value.(*ssa.Function); ok && fn.Name() == "Unlock" {
+				deferred = true
+			}
+		}
+		if _, isCall := in.(*ssa.Call); isCall && !locked {
+			if !isMutexCall(in, "Lock", "", p) {
+				return false, "a call precedes Lock"
+			}
+		}
+	}
+	if !locked || !deferred {
+		return false, "Lock / deferred Unlock not found in the entry block"
+	}
+	return true, ""
+}
+
+// ---------------------------------------------------------------------------------------------
+// C09: the context poll dominates the dispatch of every instruction.
+
+func (p *Program) pollObligations() []sob {
+	var out []sob
+	f := p.funcs["vm.(*VM).Run"]
+	if f == nil {
+		return []sob{{Name: "vm.(*VM).Run#poll.exists", OK: false, Src: "vm.Run not found"}}
+	}
+	hs := p.loopHeaders(f)
+	if len(hs) == 0 {
+		return []sob{{Name: "vm.(*VM).Run#poll.loop", OK: false, Src: "vm.Run has no loop"}}
+	}
+	hdr := hs[0]
+	body := loopBody(hdr)
+	var selB *ssa.BasicBlock
+	var sel *ssa.Select
+	for b := range body {
+		for _, in := range b.Instrs {
+			if s, ok := in.(*ssa.Select); ok && selB == nil {
+				selB, sel = b, s
+			}
+		}
+	}
+	if sel == nil {
+		return []sob{{Name: "vm.(*VM).Run#poll.select", OK: false, Src: "the dispatch loop polls the context (non-blocking select on Done())"}}
+	}
+	// the select is non-blocking, on a channel obtained from vm.context.Done()
+	okChan := false
+	if len(sel.States) == 1 && !sel.Blocking {
+		if c, ok := sel.States[0].Chan.(*ssa.Call); ok && c.Call.IsInvoke() && c.Call.Method.Name() == "Done" {
+			okChan = true
+		}
+	}
+	out = append(out, sob{Name: "vm.(*VM).Run#poll.select", OK: okChan, Src: "the dispatch loop polls vm.context.Done() with a non-blocking select", Pos: p.posOf(sel)})
+	// every instruction-dispatching block (everything in the loop except header and the select block's predecessors) is dominated by the select
+	ok := true
+	detail := ""
+	for b := range body {
+		if b == hdr || b == selB {
+			continue
+		}
+		if !selB.Dominates(b) {
+			ok = false
+			detail = fmt.Sprintf("block %d (%s) of the loop is not dominated by the poll", b.Index, b.Comment)
+		}
+	}
+	// nothing but the loop test precedes the poll in an iteration
+	if !(len(hdr.Succs) == 2 && (hdr.Succs[0] == selB || hdr.Succs[1] == selB)) {
+		ok = false
+		detail = "the poll is not the first thing an iteration does"
+	}
+	out = append(out, sob{Name: "vm.(*VM).Run#poll.dominates", OK: ok, Src: "the poll dominates the fetch and dispatch of every instruction, in every iteration", Detail: detail})
+	// the Done branch returns an error built by fmt.Errorf / errors.New without executing an instruction
+	okRet := false
+	for _, in := range selB.Instrs {
+		if ifi, isIf := in.(*ssa.If); isIf {
+			_ = ifi
+			for _, s := range selB.Succs {
+				if r, isRet := s.Instrs[len(s.Instrs)-1].(*ssa.Return); isRet && len(r.Results) == 2 {
+					if c, isCall := r.Results[1].(*ssa.Call); isCall {
+						if fn, ok := c.Call.Value.(*ssa.Function); ok && (fn.String() == "fmt.Errorf" || fn.String() == "errors.New") {
+							okRet = true
+						}
+					}
+				}
+			}
+		}
+	}
+	out = append(out, sob{Name: "vm.(*VM).Run#poll.returns", OK: okRet, Src: "when the context is done the run returns a non-nil error at once"})
+	// the only interpreter loop: every cycle of the call graph through Run goes through Run's own loop;
+	// no other loop in package vm calls back into user code except through Run
+	recOK := true
+	recDetail := ""
+	for _, g := range p.libraryFuncs() {
+		if g == f || g.Pkg == nil || g.Pkg.Pkg.Name() != "vm" {
+			continue
+		}
+		for _, b := range g.Blocks {
+			for _, in := range b.Instrs {
+				if ci, ok := in.(ssa.CallInstruction); ok {
+					if fn, ok := ci.Common().Value.(*ssa.Function); ok && fn == f {
+						recOK = false
+						recDetail = p.keyOf[g] + " calls Run"
+					}
+				}
+			}
+		}
+	}
+	out = append(out, sob{Name: "vm.(*VM).Run#poll.single-interpreter", OK: recOK, Src: "user code is only ever executed by the dispatch loop of vm.Run (functions re-enter the same loop)", Detail: recDetail})
+	// every inner loop of Run carries a proved decreases clause or is a range over a slice
+	c := p.contracts.byKey["vm.(*VM).Run"]
+	for i, h := range hs {
+		if i == 0 {
+			continue
+		}
+		has := c != nil && c.Loops[i+1] != nil && c.Loops[i+1].Decreases != nil
+		if strings.HasPrefix(h.Comment, "rangeindex") {
+			has = true
+		}
+		out = append(out, sob{Name: fmt.Sprintf("vm.(*VM).Run#poll.inner-loop-%d-bounded", i+1), OK: has, Src: "inner loop has a decreases clause (proved by SMT) or ranges over a slice"})
+	}
+	return out
+}
+
+// ---------------------------------------------------------------------------------------------
+// C19: determinism.  Sources of nondeterminism: iteration over maps (incl. reflect MapKeys),
+// formatting of addresses.
+
+func (p *Program) determinismObligations() []sob {
+	var out []sob
+	for _, f := range p.libraryFuncs() {
+		key := p.keyOf[f]
+		n := 0
+		for _, b := range f.Blocks {
+			for _, in := range b.Instrs {
+				switch x := in.(type) {
+				case *ssa.Range:
+					if _, isMap := x.X.Type().Underlying().(*types.Map); !isMap {
+						continue
+					}
+					n++
+					kind, ok, detail := p.classifyMapRange(f, x)
+					out = append(out, sob{Name: fmt.Sprintf("%s#determinism.maprange.%d", key, n), OK: ok,
+						Src: "range over a map: the result must not depend on the iteration order (" + kind + ")", Detail: detail, Pos: p.posOf(x)})
+				case *ssa.Call:
+					if fn, ok := x.Call.Value.(*ssa.Function); ok {
+						switch fn.String() {
+						case "(reflect.Value).MapKeys", "(reflect.Value).MapRange":
+							n++
+							kind, ok, detail := p.classifyMapKeys(f, x)
+							out = append(out, sob{Name: fmt.Sprintf("%s#determinism.mapkeys.%d", key, n), OK: ok,
+								Src: "reflect MapKeys yields keys in unspecified order (" + kind + ")", Detail: detail, Pos: p.posOf(x)})
+						case "fmt.Sprintf", "fmt.Printf", "fmt.Errorf":
+							if cst, ok := x.Call.Args[0].(*ssa.Const); ok && cst.Value != nil && strings.Contains(cst.Value.ExactString(), "%p") {
+								n++
+								out = append(out, sob{Name: fmt.Sprintf("%s#determinism.address.%d", key, n), OK: false, Src: "%p formats a memory address", Pos: p.posOf(x)})
+							}
+						}
+					}
+				case *ssa.Convert:
+					if b, ok := x.X.Type().Underlying().(*types.Basic); ok && b.Kind() == types.UnsafePointer {
+						n++
+						out = append(out, sob{Name: fmt.Sprintf("%s#determinism.address.%d", key, n), OK: false, Src: "conversion from unsafe.Pointer", Pos: p.posOf(x)})
+					}
+				}
+			}
+		}
+	}
+	return out
+}
+
+// classifyMapRange: the loop driven by a map Range is acceptable when
+//   commutes: its body only stores into a map allocated in this function under the iteration key
+//             (each iteration touches its own key), or
+//   sorted:   it only appends to one local slice which is sorted (sort.Sort / sort.Slice) right after
+//             the loop; the sort key must be injective on the elements - that is a separate claim
+//             recorded in the contract file ("sortkey_injective <reason>") and otherwise a finding.
+func (p *Program) classifyMapRange(f *ssa.Function, r *ssa.Range) (string, bool, string) {
+	// find the loop: header = block of the Next instruction
+	var next *ssa.Next
+	for _, ref := range *r.Referrers() {
+		if n, ok := ref.(*ssa.Next); ok {
+			next = n
+		}
+	}
+	if next == nil {
+		return "unused", true, ""
+	}
+	hdr := next.Block()
+	body := loopBody(hdr)
+	appends, mapupd, other := 0, 0, 0
+	var otherDetail string
+	var appendTarget ssa.Value
+	for b := range body {
+		for _, in := range b.Instrs {
+			switch x := in.(type) {
+			case *ssa.MapUpdate:
+				if _, fresh := x.Map.(*ssa.MakeMap); fresh {
+					mapupd++
+				} else {
+					other++
+					otherDetail = "map update of a map not allocated here"
+				}
+			case *ssa.Store:
+				// stores into locals / fresh objects are fine (per-iteration temporaries); stores elsewhere are not
+				if !p.storeIsLocal(x) {
+					other++
+					otherDetail = "store to shared memory at " + p.posOf(x).String()
+				}
+			case *ssa.Call:
+				if b, ok := x.Call.Value.(*ssa.Builtin); ok && b.Name() == "append" {
+					appends++
+					appendTarget = x
+					continue
+				}
+				if fn, ok := x.Call.Value.(*ssa.Function); ok {
+					if fn.Pkg != nil && !isModulePkg(fn.Pkg.Pkg) {
+						if e := classifyExternal(fn); e != "pure" {
+							other++
+							otherDetail = "call with effect " + e + ": " + fn.String()
+						}
+						continue
+					}
+				}
+				// calls of module functions / methods: allowed if they only read or write fresh/argument-owned state; we
+				// accept calls whose inferred frame has no pre-existing component other than the receiver's own fields
+				if callee := p.callees(x.Common()); len(callee) > 0 {
+					for _, cf := range callee {
+						ms := p.modset(cf)
+						if ms.All {
+							other++
+							otherDetail = "call of " + p.keyOf[cf] + " with unknown frame"
+						}
+					}
+				}
+			}
+		}
+	}
+	c := p.contracts.byKey[p.keyOf[f]]
+	claim := ""
+	if c != nil {
+		claim = c.Props["maporder"]
+	}
+	switch {
+	case other > 0 && strings.HasPrefix(claim, "listing"):
+		return "listing", true, "declared: " + claim
+	case other > 0:
+		return "effects inside the loop", false, otherDetail
+	case appends == 0:
+		return "commutes: each iteration updates its own key of a fresh map", true, ""
+	default:
+		// appended slice must be sorted after the loop, by a comparison that discriminates beyond the printed form
+		sorted := false
+		stringsSorted := false
+		var less *ssa.Function
+		for _, b := range f.Blocks {
+			for _, in := range b.Instrs {
+				if call, ok := in.(*ssa.Call); ok {
+					if fn, ok := call.Call.Value.(*ssa.Function); ok {
+						switch fn.String() {
+						case "sort.Strings":
+							sorted = true
+							stringsSorted = true
+						case "sort.Slice", "sort.SliceStable":
+							sorted = true
+							if mc, ok := call.Call.Args[1].(*ssa.MakeClosure); ok {
+								less = mc.Fn.(*ssa.Function)
+							}
+						case "sort.Sort", "sort.Stable":
+							sorted = true
+							arg := call.Call.Args[0]
+							if mi, ok := arg.(*ssa.MakeInterface); ok {
+								if sel := p.prog.MethodSets.MethodSet(mi.X.Type()).Lookup(f.Pkg.Pkg, "Less"); sel != nil {
+									less = p.prog.MethodValue(sel)
+								}
+							}
+						}
+					}
+				}
+			}
+		}
+		_ = appendTarget
+		if !sorted {
+			return "collected but never sorted", false, "the slice built from the map is used in map order"
+		}
+		if stringsSorted && less == nil {
+			return "sorted as strings", true, "sort.Strings: a total order; equal strings are interchangeable"
+		}
+		if less == nil {
+			return "sorted by a comparison that could not be located", false, ""
+		}
+		printed, kind := false, false
+		for _, b := range less.Blocks {
+			for _, in := range b.Instrs {
+				ci, ok := in.(ssa.CallInstruction)
+				if !ok {
+					continue
+				}
+				c := ci.Common()
+				if c.IsInvoke() {
+					switch c.Method.Name() {
+					case "Inspect", "String":
+						printed = true
+					case "Type":
+						kind = true
+					}
+				} else if fn, ok := c.Value.(*ssa.Function); ok && fn.String() == "fmt.Sprintf" {
+					if cst, ok := c.Args[0].(*ssa.Const); ok && cst.Value != nil && strings.Contains(cst.Value.ExactString(), "%T") {
+						kind = true
+					}
+				}
+			}
+		}
+		if printed && kind {
+			return "sorted by printed form and kind", true, "the comparison " + p.keyOf[less] + " discriminates entries that print alike by their kind; entries equal in both are the same key (that (printed form, kind) is injective on keys is argued in DESIGN.md, not checked)"
+		}
+		return "sorted, but the sort key is not injective on the elements", false, "entries that print alike (1, \"1\", 1.0) keep the (random) map order: the comparison " + p.keyOf[less] + " looks at the printed form only; sort.Sort / sort.Slice are not stable"
+	}
+}
+
+func (p *Program) storeIsLocal(s *ssa.Store) bool {
+	switch a := s.Addr.(type) {
+	case *ssa.Alloc:
+		return true
+	case *ssa.FieldAddr:
+		_, ok := a.X.(*ssa.Alloc)
+		return ok
+	case *ssa.IndexAddr:
+		if _, ok := a.X.(*ssa.Alloc); ok {
+			return true
+		}
+		return freshSlice(a.X, map[ssa.Value]bool{})
+	}
+	return false
+}
+
+func (p *Program) classifyMapKeys(f *ssa.Function, call *ssa.Call) (string, bool, string) {
+	// the keys are only used to drive a loop whose body stores into a map under that key
+	c := p.contracts.byKey[p.keyOf[f]]
+	for _, b := range f.Blocks {
+		for _, in := range b.Instrs {
+			if b2, ok := in.(*ssa.Call); ok {
+				if bi, ok := b2.Call.Value.(*ssa.Builtin); ok && bi.Name() == "append" {
+					return "keys collected into a slice", false, "order of MapKeys reaches a slice"
+				}
+			}
+		}
+	}
+	hasMapUpdate := false
+	for _, b := range f.Blocks {
+		for _, in := range b.Instrs {
+			if _, ok := in.(*ssa.MapUpdate); ok {
+				hasMapUpdate = true
+			}
+		}
+	}
+	if hasMapUpdate {
+		return "commutes: each key updates its own entry of a map", true, ""
+	}
+	if c != nil && c.Props["maporder"] != "" {
+		return "declared", true, c.Props["maporder"]
+	}
+	return "unclassified use of MapKeys", false, ""
+}
+
+// ---------------------------------------------------------------------------------------------
+
+func structuralFor(p *Program, id string) []sob {
+	switch id {
+	case "C10":
+		return p.effectObligations()
+	case "C11":
+		return p.lockObligations()
+	case "C09":
+		return p.pollObligations()
+	case "C19":
+		return p.determinismObligations()
+	}
+	return nil
+}
 
 func addStructuralCoverage(p *Program, id, tier string, res *propResult, violLines, knownLines *[]string, findings []*finding) {
+	obs := structuralFor(p, id)
+	if len(obs) == 0 {
+		return
+	}
+	cov := res.ev.Coverage
+	viol := 0
+	ok := 0
+	var samples []interface{}
+	for _, o := range obs {
+		if o.OK {
+			ok++
+			if len(samples) < 4 {
+				samples = append(samples, map[string]string{"obligation": o.Name, "clause": o.Src, "status": "proved", "backend": "structural"})
+			}
+			continue
+		}
+		var kf *finding
+		for _, f := range findings {
+			if f.Kind == "finding" && f.re.MatchString(o.Name) && strings.Contains(","+f.Property+",", ","+id+",") {
+				kf = f
+			}
+		}
+		if kf != nil {
+			*knownLines = append(*knownLines, fmt.Sprintf("KNOWN-FINDING: property=%s %s [%s]", id, kf.What, o.Name))
+			ok++
+			continue
+		}
+		viol++
+		rp := writeStructuralReplay(id, o)
+		line := fmt.Sprintf("VIOLATION property=%s replay=%s obligation=%s status=failed no-failing-input-found", id, rp, o.Name)
+		*violLines = append(*violLines, line)
+	}
+	cov["structural_obligations"] = len(obs)
+	cov["structural_discharged"] = ok
+	cov["structural_violations"] = viol
+	if n, ok2 := cov["obligations"].(int); ok2 {
+		cov["obligations"] = n + len(obs)
+	}
+	if n, ok2 := cov["discharged"].(int); ok2 {
+		cov["discharged"] = n + ok
+	}
+	if bb, ok2 := cov["by_backend"].(map[string]int); ok2 {
+		bb["structural"] = ok
+	}
+	if s, ok2 := cov["samples"].([]interface{}); ok2 {
+		cov["samples"] = append(samples, s...)
+	} else {
+		cov["samples"] = samples
+	}
+	fmt.Printf("structural obligations for %s: %d, discharged %d, violations %d\n", id, len(obs), ok, viol)
+}
+
+func writeStructuralReplay(id string, o sob) string {
+	return writeJSON("/verif/replays/"+id, sanitize(o.Name)+".json", map[string]interface{}{
+		"property": id, "obligation": o.Name, "kind": "structural", "clause": o.Src, "detail": o.Detail, "position": o.Pos.String(),
+		"replay_status": "no-failing-input-found", "note": "structural obligation (no solver model): the named clause does not hold of the code at the given position",
+	})
 }
 
 func propertyAssumptions(id string) []string {
 	return paperLemmas[id]
 }
 
-var paperLemmas = map[string][]string{}
+var paperLemmas = map[string][]string{
+	"C01": {"paper lemma L-expr: nested expressions evaluate by structural induction from the per-opcode step contracts and the compiler's emission order (compile is not under contract yet)"},
+	"C05": {"paper lemma L-cf: if/while/ternary consume truth only through OpJumpIfFalse (compiler templates, not machine-checked)"},
+	"C06": {"paper lemma L-cf for where scopes are opened and closed by compiled code"},
+	"C07": {"panic exits of vm.Run are not modelled: a panic below a user-function call is outside what is decided"},
+	"C09": {"the length of the delay (wall clock), the moment of asynchronous cancellation and the running time of a single instruction on huge data are not decided; host functions are outside"},
+	"C10": {"the effect classification of standard-library functions (pure / stdout / env / clock / tzdb) is a trusted table; the Go runtime's own effects are outside"},
+	"C11": {"a lock discipline is checked, schedules are not explored (level: other); objects a host shares between evaluators are outside; SetVariable/AddFunction concurrent with Run is not promised by the statement"},
+	"C19": {"uniqueness of a sorted permutation under a total order is a library fact; clock/env built-ins are excluded by the statement"},
+}
